@@ -1,4 +1,4 @@
-import PPLV.WR.ReduceProofsBase
+import PPLV.WR.ReduceProofsCodeClosed
 import Mathlib.Tactic.Linarith
 /-!
 # Reduction of a closed difference-bound matrix, pure mathematics (1): zero-equivalence classes
@@ -39,14 +39,8 @@ end DBM
 
 /-! ## zero-equivalence -/
 
-theorem ZEq.symm {c : Mat} {i j : Nat} (h : ZEq c i j) : ZEq c j i := by
-  rcases h with h | h
-  · exact Or.inl h.symm
-  · right
-    cases hij : c i j <;> cases hji : c j i <;> rw [hij, hji] at h <;> simp_all [ExtRat.isAddInv]
-    rw [add_comm]; exact h
-
-theorem ZEq.refl (c : Mat) (i : Nat) : ZEq c i i := Or.inl rfl
+-- `ZEq.refl`, `ZEq.symm` (same statements) come from `ReduceProofsCodeClosed.lean`: one declaration for both proof
+-- families, so that `Props/C04Reduce.lean` can import the code-spec and the mathematics together.
 
 variable {n : Nat}
 
